@@ -42,7 +42,7 @@ def strategy(tier):
                 families=("nlp", "nlp", "qp", "qp", "degenerate", "patternvar"),
                 max_n=4 if tier == "quick" else 6,
                 max_m=3,
-                scalings=("none", "custom", "custom", "gradjac", "nominal", "kkt"),
+                scalings=("none", "none", "custom", "custom", "gradjac", "nominal", "kkt"),
                 iteration_limit=40 if tier == "quick" else 150,
             )
         )
@@ -54,9 +54,12 @@ def strategy(tier):
         pol["lag_hess"] = draw(st.sampled_from(["fresh", "memo"] + (["const", "const"] if (r.affine and r.quadratic_obj) else ["memo"])))
         case["policy"] = pol
         # the flow-integration solver evaluates the same callbacks through its own code path
-        if case["spec"]["n"] <= 3 and draw(st.integers(0, 5)) == 0:
+        if case["spec"]["n"] <= 3 and draw(st.integers(0, 3)) == 0:
             case["solver"] = "integration"
             case["iteration_limit"] = 30
+        if (case.get("solver") == "integration" or case["params"].get("newton_type") == "Globalized") and draw(st.booleans()):
+            # without a scaling the solver works directly on the objects the callbacks return: the most exposed path
+            case["scaling"] = {"kind": "none"}
         return case
 
     return _s()
